@@ -92,8 +92,18 @@ def c08(R):
                     k1 = max(1, k // 3); s2 = make(kind, prob, g, eps, bs, test, P); s2.solve(k1); st2 = s2.solve(k - k1)
                     if int(st2.info.iteration) != it or not close(st2.values, V, 1e-8) or not np.array_equal(np.asarray(st2.policy), np.asarray(st.policy)):
                         R.fail("c08.composable", "solve(k1); solve(k2) differs from solve(k1+k2)", dict(inp, k1=k1), dict(iteration=int(st2.info.iteration)), dict(iteration=it))
+    c08_shuffle(R)
     return R
 
+def c08_shuffle(R):
+    """composability with the shuffled update order: the PRNG key is carried state (no reference iteration needed: solve(k1); solve(k2) vs solve(k1+k2))"""
+    for t, N, A, E, ns, r, p in mdps(2, lo=6, hi=12):
+        v0 = rng.normal(0, 3, N); seed = int(rng.integers(0, 1000)); bs = 2
+        mk = lambda: SA(Tab(ns, r, p, v0), gamma=0.95, epsilon=1e-12, verbose=0, max_batch_size=bs, shuffle_states=True, random_seed=seed)
+        a_ = mk(); a_.solve(3); sa = a_.solve(4); b_ = mk(); sb = b_.solve(7)
+        inp = desc(N, A, E, solver="sa", shuffle=True, seed=seed, max_batch_size=bs, calls=[3, 4], v0=v0, **tables(ns, r, p)); R.case(("sa_shuffle", N, A, E, seed), None)
+        if int(sa.info.iteration) != int(sb.info.iteration) or not close(sa.values, sb.values, 1e-10):
+            R.fail("c08.composable", "shuffled semi-async: solve(3); solve(4) differs from solve(7)", inp, np.asarray(sa.values), np.asarray(sb.values))
 # ----------------------------------------------------------------------------------------------------------------- C01
 def c01_report(): return Report("c01_runtime", "C01", "random tabular MDPs x {VI span, VI max_diff, PI span, PI max_diff, semi-async max_diff (fixed + shuffled)}; exact policy evaluation by linear solve; distinct = (solver, sizes)")
 def c01(R):
